@@ -623,8 +623,10 @@ func ruleAtom2(c *Ctx, r *Reporter) {
 		return
 	}
 	helpers := map[string]bool{}
-	for _, h := range []string{"insert", "replace", "update", "delete"} {
-		helpers["Transaction."+h] = true
+	helperFn := map[string]*ssa.Function{}
+	for _, h := range loggingHelpers(c) {
+		helpers["Transaction."+h.Name()] = true
+		helperFn["Transaction."+h.Name()] = h
 	}
 	found := 0
 	for _, name := range []string{"Transaction.Insert", "Transaction.Bulk"} {
@@ -668,8 +670,19 @@ func ruleAtom2(c *Ctx, r *Reporter) {
 			if !inLoop(call.Block()) {
 				problems = append(problems, "helper call is not inside the item loop")
 			}
-			// args 2 and 3 (oplog, namespace) are Clone() results made in the loop
-			for _, ai := range []int{2, 3} {
+			// the oplog and namespace arguments are Clone() results made in the loop
+			hf := helperFn["Transaction."+calleeObj(&call.Call).Name()]
+			op, nsp := helperCollParams(c, hf)
+			idxOf := func(p *ssa.Parameter) int {
+				for i, q := range hf.Params {
+					if q == p {
+						return i
+					}
+				}
+				return -1
+			}
+			ai1, ai2 := idxOf(op), idxOf(nsp)
+			for _, ai := range []int{ai1, ai2} {
 				a := call.Call.Args[ai]
 				cc, ok := a.(*ssa.Call)
 				if !ok || calleeObj(&cc.Call) != collClone {
@@ -683,7 +696,7 @@ func ruleAtom2(c *Ctx, r *Reporter) {
 			// the assign-back pair
 			var mine []*ssa.MapUpdate
 			for _, mu := range updates {
-				if mu.Value == call.Call.Args[2] || mu.Value == call.Call.Args[3] {
+				if mu.Value == call.Call.Args[ai1] || mu.Value == call.Call.Args[ai2] {
 					mine = append(mine, mu)
 				}
 			}
@@ -696,7 +709,7 @@ func ruleAtom2(c *Ctx, r *Reporter) {
 				for _, chk := range errChecksOf(errorResult(call)) {
 					// reachable from the failure edge without starting a new iteration (passing the clone calls)
 					blocked := map[*ssa.BasicBlock]bool{}
-					if cc, ok := call.Call.Args[2].(*ssa.Call); ok {
+					if cc, ok := call.Call.Args[ai1].(*ssa.Call); ok {
 						blocked[cc.Block()] = true
 					}
 					reach := blockReach([]*ssa.BasicBlock{chk.FailSucc}, blocked)
